@@ -186,4 +186,57 @@ def run(ctx, prog):
                  bool(none_e) and bool(re.search(r'Ord::clamp\(.*Ord::max\(arg:k, 1\), 10000\)|impls::clamp\(.*Ord::max\(arg:k, 1\), 10000\)|::clamp\(.*, Ord::max\(arg:k, 1\), 10000\)', efo)) and ('200' in efo),
                  'ef_search = %s' % efo[:200])
     ctx.floor('C16.R3', 'index search calls in the backend', n_sk, 2, 'single and batch search')
+    # ------------------------------------------------------------------ R4 the pruning bound tracks the beam
+    ctx.rule('C16.R4', 'in every beam search of the graph (query-time layer 0 and the construction-time layers) the pruning bound `worst_dist` is refreshed from the result '
+                       'heap after EVERY change of that heap: no path leads from a push / pop on `results` to the next comparison against the bound (stop test, admission '
+                       'test) without an assignment of the bound in between. A bound that lags behind the heap (e.g. refreshed only on eviction) still equals the entry '
+                       'point\'s distance when the beam first fills, and the search stops after ~ef visited nodes: recall collapses on high-dimensional data')
+    n4 = 0
+    for root_nm in ('FlatGraph::search_layer0_exact', 'FlatGraph::search_at_layer_into'):
+        rootb = ctx.body('C16.R4', root_nm)
+        if rootb is None:
+            continue
+        for b in prog.family(rootb):
+            wl = b.var_local('worst_dist')
+            if not wl:
+                continue
+            of4 = flow.Origin(b)
+            ov4 = flow.Origin(b, stop_at_vars=True)
+            muts = [c for c in b.calls if c.callee and re.search(r'SearchHeap(<.*>)?::(push|pop)$', flow.short(c.callee)) and c.args and
+                    flow.render(of4.of_operand(c.args[0])).endswith('FlatSearchScratch.results')]
+            refresh, from_peek = set(), 0
+            for i_, blk in enumerate(b.blocks):
+                if i_ not in b.live_blocks():
+                    continue
+                for st in blk['s']:
+                    if 'rv' in st and st['pl']['l'] in wl and not st['pl'].get('p'):
+                        refresh.add(i_)
+                        if 'SearchHeap::peek(' in flow.render(of4.of_rvalue(st['rv'], 0, frozenset())):
+                            from_peek += 1
+                c_ = b.call_at(i_) if blk['t']['k'] == 'call' else None
+                if c_ is not None and c_.dest is not None and c_.dest['l'] in wl and not c_.dest.get('p'):
+                    refresh.add(c_.to if c_.to is not None else i_)
+                    if 'SearchHeap::peek(' in flow.render(of4.of_local(c_.dest['l'])):
+                        from_peek += 1
+            uses = set()
+            for i_, blk in enumerate(b.blocks):
+                if i_ not in b.live_blocks():
+                    continue
+                for st in blk['s']:
+                    rv = st.get('rv')
+                    if rv and rv['k'] == 'bin' and rv['op'] in ('Gt', 'Lt', 'Ge', 'Le') and any(flow.render(ov4.of_operand(rv[s_])) == 'var:worst_dist' for s_ in ('a', 'b')):
+                        uses.add(i_)
+            stale = []
+            for c in muts:
+                if c.to is None:
+                    continue
+                r4 = b.reach([c.to], avoid_blocks=refresh) | ({c.to} - refresh)
+                hit = sorted(u for u in uses if u in r4)
+                if hit:
+                    stale.append((c, hit[0]))
+            n4 += 1
+            ctx.inst('C16.R4', b.short, 'the pruning bound is refreshed after every change of the result heap', bool(muts) and bool(uses) and from_peek >= 1 and not stale,
+                     ('after %s at %s the comparison at %s is reachable without refreshing worst_dist' % (flow.short(stale[0][0].callee), stale[0][0].loc, b.loc_of(stale[0][1]))) if stale
+                     else '%d heap changes, %d comparisons against the bound, %d refresh sites (%d from peek)' % (len(muts), len(uses), len(refresh), from_peek))
+    ctx.floor('C16.R4', 'beam-search bodies with a pruning bound', n4, 2, 'search_layer0_exact, search_at_layer_into')
     ctx.stat('functions_analysed', len(R))
